@@ -102,6 +102,8 @@ pub enum Case {
     AddMonths { cal: AnyCal, day: i64, months: i32, roll: RollSpec, modifier: u8, settlement: bool },
     // ---- (C) documents: a valid JSON text with structural mutations
     Document { kind: DocKind, tagged: bool, seed_obj: DocSeed, mutations: Vec<Mutation> },
+    /// a JSON text given literally (what the byte-level fuzzer finds), loaded as the given kind
+    RawDocument { kind: DocKind, tagged: bool, text: String },
 }
 
 /// what the valid document is built from
@@ -1022,6 +1024,30 @@ impl C20 {
                     v.fail(format!("add_months | panic | {}", p.site()), format!("{:?}: {}", c, p.message));
                 }
             }
+            Case::RawDocument { kind, tagged, text } => {
+                let tagged = *tagged && !matches!(kind, DocKind::CalType | DocKind::FXRate | DocKind::Number | DocKind::CurveDF);
+                v.label(intern(format!("rawdoc:{:?}{}", kind, if tagged { ":tagged" } else { "" })));
+                v.nt(true);
+                match catch(|| load(kind, tagged, text)) {
+                    Err(p) => v.fail(
+                        format!("from_json | {:?}{} | panic | {}", kind, if tagged { " (tagged)" } else { "" }, p.site()),
+                        format!("document {}\n  panic: {}", text.chars().take(600).collect::<String>(), p.message),
+                    ),
+                    Ok(Err(e)) => v.fail(format!("from_json | {:?} | loaded object is unusable", kind), format!("{} (document {})", e, text.chars().take(600).collect::<String>())),
+                    Ok(Ok(None)) => v.label("load:rejected"),
+                    Ok(Ok(Some(again))) => {
+                        v.label("load:accepted");
+                        let mut problems = Vec::new();
+                        if let Ok(val) = serde_json::from_str::<Value>(&again) {
+                            shape_problems(&val, &mut problems);
+                        }
+                        if let Some(p) = problems.first() {
+                            let which = if p.contains("spline") { "spline" } else { "number" };
+                            v.fail(format!("from_json | loaded {} breaks its shape invariant", which), format!("{} (kind {:?}, document {})", p, kind, text.chars().take(600).collect::<String>()));
+                        }
+                    }
+                }
+            }
             Case::Document { kind, tagged, seed_obj, mutations } => {
                 let tagged = *tagged && !matches!(kind, DocKind::CalType | DocKind::FXRate | DocKind::Number | DocKind::CurveDF);
                 v.label(intern(format!("doc:{:?}{}", kind, if tagged { ":tagged" } else { "" })));
@@ -1133,4 +1159,45 @@ impl Property for C20 {
             "PPSpline::new and Cal::new are not result-returning and are called with valid arguments only".into(),
         ]
     }
+}
+
+pub const DOC_KINDS: [DocKind; 14] = [
+    DocKind::Dual, DocKind::Dual2, DocKind::Cal, DocKind::UnionCal, DocKind::NamedCal, DocKind::CalType, DocKind::FXRates, DocKind::CurveDF,
+    DocKind::Curve, DocKind::SplineF64, DocKind::SplineDual, DocKind::SplineDual2, DocKind::FXRate, DocKind::Number,
+];
+
+/// byte-level fuzz entry: first byte selects (kind, tagged), the rest is the JSON text
+pub fn raw_document_case(data: &[u8]) -> Option<Case> {
+    let (sel, rest) = data.split_first()?;
+    let text = std::str::from_utf8(rest).ok()?.to_string();
+    Some(Case::RawDocument { kind: DOC_KINDS[(*sel as usize) % 14].clone(), tagged: (*sel as usize / 14) % 2 == 1, text })
+}
+
+/// seed corpus for the byte-level target: valid documents of every kind, direct and tagged
+pub fn seed_corpus() -> Vec<Vec<u8>> {
+    use proptest::strategy::{Strategy, ValueTree};
+    use proptest::test_runner::{Config, RngSeed, TestRunner};
+    let mut out = Vec::new();
+    let mut runner = TestRunner::new(Config { rng_seed: RngSeed::Fixed(20), failure_persistence: None, ..Config::default() });
+    for round in 0..3 {
+        let seed = match doc_seed().new_tree(&mut runner) {
+            Ok(t) => t.current(),
+            Err(_) => continue,
+        };
+        for (i, k) in DOC_KINDS.iter().enumerate() {
+            for tagged in [false, true] {
+                if tagged && matches!(k, DocKind::CalType | DocKind::FXRate | DocKind::Number | DocKind::CurveDF) {
+                    continue;
+                }
+                if let Ok(Ok(text)) = catch(|| valid_document(k, tagged, &seed)) {
+                    if text.len() < 6000 || round == 0 {
+                        let mut bytes = vec![(i + if tagged { 14 } else { 0 }) as u8];
+                        bytes.extend(text.as_bytes());
+                        out.push(bytes);
+                    }
+                }
+            }
+        }
+    }
+    out
 }
